@@ -37,6 +37,12 @@ def headLen : Bytes → Nat
   | [] => 0
   | b :: rest => if CRLFCRLF.isPrefixOf (b :: rest) then 4 else 1 + headLen rest
 
+/-- how many bytes `read_payload` still takes from the stream after the first read: the announced body minus what came with the head -/
+def needOf (first : Bytes) (p : Parsed) : Nat :=
+  match p.payload with
+  | some b => b.length - min b.length (first.length - headLen first)
+  | none => 0
+
 /-- the per-request state of the reused `Request` object that a handler could observe -/
 structure Residue where
   parsed : Option Parsed        -- fields left by an earlier request (none = as after `init`)
@@ -81,9 +87,7 @@ def run (app : App) : Nat → Residue → Conn → List Bytes × End
         let (out, e) := run app fuel { res with parsed := none } ⟨rest, conn.eof⟩
         (app.reject status :: out, e)
       | .ok p =>
-        let fromBuf := first.length - headLen first
-        let need := match p.payload with | some b => b.length - min b.length fromBuf | none => 0
-        match readExact need rest with
+        match readExact (needOf first p) rest with
         | none => ([], if conn.eof then .none else .stalled)
         | some (_, rest') =>
           let out := app.respond res.parsed p
